@@ -97,6 +97,11 @@ func serveQuiet(p *Program, code map[string][]byte, sid string, mode string, inp
 		call = 0
 		if mode == "P" || mode == "F" || en == nil {
 			en = engine.NewEngine(cfg, rs)
+			if pseed%5 == 0 {
+				// every fifth application accepts one more input format (engine.AddValidInput, as examples/first does); the
+				// engines of all such applications ask for the same format
+				en.AddValidInput("^#[0-9]+$")
+			}
 			if mode == "F" {
 				fs := fsdb.NewFsDb()
 				if err := fs.Connect(ctx, fsdir[0]); err != nil {
@@ -209,6 +214,13 @@ func cmdRaceRun(args []string) error {
 			inputs = append(inputs, p.Inputs[rng.Intn(len(p.Inputs))])
 		}
 		job := raceJob{p: p, mode: []string{"L", "P", "F"}[rng.Intn(3)], inputs: inputs, pseed: rng.Int63()}
+		if job.pseed%5 == 0 {
+			// an application with an extra input format gets inputs in that format (and every history some input that fails
+			// the built-in pattern, so that the extra formats are consulted)
+			job.inputs[1+rng.Intn(len(job.inputs)-1)] = "#7"
+		} else if rng.Intn(3) == 0 {
+			job.inputs[1+rng.Intn(len(job.inputs)-1)] = "*"
+		}
 		jobs = append(jobs, job)
 	}
 	shareddir, err := os.MkdirTemp("", "verif-race-data-")
